@@ -57,6 +57,9 @@ KIND_NAMES = {
     2001: 'C20/owners: ownership table of package torrent regenerated from the Go source by the translator (fields of torrent and Session, accesses with the locks held and the goroutine contexts of the accessing function, sends on command channels, lock nesting incl. database transactions) checked entry by entry by Owner.mon_owner',
     2002: 'C20/api_stress: 4-11 client goroutines issue 40-120 public API calls each (stats, peers, trackers, web seeds, add peer by IP and host name, add tracker, start, stop, verify, announce, list/get, add+remove torrent, StartAll/StopAll, notify channels) on a live session with a 20 ms resume write interval: every call returns and the session closes',
     104: 'session/stop_write: a stop (files closed, os.File semantics) or a disk error while a verified piece waits at the disk, stepped loop: pieces reported vs bytes on disk vs WriteGate.v',
+    205: 'C02/create_verify: metainfo.NewInfoBytes on directory trees with names that are prefixes of sibling names, parsed back and re-hashed in metainfo order',
+    305: 'C03/cached_multi: cachedpiece.ReadAt over twelve or more pieces sharing one read cache (blocks of different pieces must not be confused) vs Cache.cached_read per piece',
+    603: 'C06/depth_scan: bencodedepth.Check on generated byte strings (token soups, nests around the limit, huge and overflowing string length prefixes) vs Depth.depth_check',
     903: 'C09/picker_ws: piecepicker with web seeds (PickWebseed, stop-at, close, web-seed and peer steals, PickFor in web-seed mode) under the torrent glue vs PickerWs.v (answers validated against the legal set)',
     905: 'C09/file_edges: markFileEdges of the real picker (sequential mode) on generated layouts incl. zero-length, tiny, huge and padding files vs Edges.v',
     1605: 'C16/reply_limit: httptracker.Announce against a local server whose reply is around, below or above the configured limit, with a declared length or streamed in chunks vs Tracker.read_reply',
@@ -96,7 +99,7 @@ PROPS = {
         'assumptions': [],
     },
     'C10': {
-        'kinds': {101: {'quick': 2500, 'thorough': 60000}, 102: {'quick': 800, 'thorough': 20000}, 105: {'quick': 150, 'thorough': 3000}},
+        'kinds': {101: {'quick': 2500, 'thorough': 60000}, 102: {'quick': 800, 'thorough': 20000}, 105: {'quick': 150, 'thorough': 3000}, 901: {'quick': 600, 'thorough': 20000}, 903: {'quick': 600, 'thorough': 20000}},
         'trusted': ['the dispatch of torrent.run() is generated from its source (bin/gen_dispatch.py) for the stepped loop', 'WriteCacheSize is large enough that the write-cache manager never defers a piece download in the generated scenarios'],
         'assumptions': ['the history was accepted by the model (s_bad = 0), which the correspondence establishes per generated history'],
     },
@@ -136,7 +139,7 @@ PROPS = {
         'assumptions': ['the torrent loop calls the picker under the glue discipline modelled by Picker.pstep'],
     },
     'C03': {
-        'kinds': {301: {'quick': 3000, 'thorough': 60000}, 302: {'quick': 3000, 'thorough': 60000}, 303: {'quick': 1500, 'thorough': 30000}, 304: {'quick': 3000, 'thorough': 60000}, 1105: {'quick': 3000, 'thorough': 60000}},
+        'kinds': {301: {'quick': 3000, 'thorough': 60000}, 302: {'quick': 3000, 'thorough': 60000}, 303: {'quick': 1500, 'thorough': 30000}, 304: {'quick': 3000, 'thorough': 60000}, 305: {'quick': 1500, 'thorough': 30000}, 1105: {'quick': 3000, 'thorough': 60000}},
         'trusted': ['container/heap keeps the least recently used item at index 0; time.AfterFunc TTL expiry is not exercised (TTL one hour)'],
         'assumptions': ['0 < ReadCacheBlockSize < 2^31; piece length < 2^32'],
     },
@@ -156,13 +159,13 @@ PROPS = {
         'assumptions': ['data directory is absolute and contains no symlinks planted by a third party'],
     },
     'C06': {
-        'kinds': {601: {'quick': 4000, 'thorough': 100000}, 602: {'quick': 400, 'thorough': 6000}},
+        'kinds': {601: {'quick': 4000, 'thorough': 100000}, 602: {'quick': 400, 'thorough': 6000}, 603: {'quick': 3000, 'thorough': 60000}},
         'trusted': ['zeebo/bencode decodes the generated dictionaries into the struct fields the model starts from'],
         'assumptions': ['file lengths and the single length are int64 values; len(pieces)/20 < 2^31'],
     },
     'C02': {
         'kinds': {201: {'quick': 3000, 'thorough': 60000}, 202: {'quick': 3000, 'thorough': 60000},
-                  203: {'quick': 1500, 'thorough': 20000}, 204: {'quick': 2000, 'thorough': 40000}},
+                  203: {'quick': 1500, 'thorough': 20000}, 204: {'quick': 2000, 'thorough': 40000}, 205: {'quick': 300, 'thorough': 6000}},
         'trusted': [],
         'assumptions': [],
     },
